@@ -58,6 +58,14 @@ class OneName(Lemma):
         default = (1 - R) * (1 - E) * tail(a) / (r + tail(a))
         vc.check(self.name + "::implied-spread-solves-the-present-value-equation", default - s * fixed == pv)
         vc.check(self.name + "::implied-spread-at-zero-pv-is-the-par-spread", Implies(pv == 0, s == par))
+        # history: the same level asked again after the pricer's model has changed (its measure truncated to a grid, or the
+        # model attribute reassigned): theta is the mass of the CURRENT model
+        tail2 = z3.Function("MU_tail_left_of_the_changed_model", z3.RealSort(), z3.RealSort())
+        T2 = lambda x: Sym(tail2(as_real_term(lift(x))), "r")
+        model.fields["mass"] = Model(lambda interp, a_, b_, indices=None: T2(b_), "abstract-mass-after-the-change")
+        vc.check(self.name + "::after-the-model-changed:theta-is-the-mass-of-the-current-model[same model object]", vc.method(cf, "_theta", a) == T2(a))
+        cf.fields["model"] = vc.obj(LM + "LevyModel", mass=Model(lambda interp, a_, b_, indices=None: T2(b_) + 1, "abstract-mass-of-another-model"), r=r)
+        vc.check(self.name + "::after-the-model-changed:theta-is-the-mass-of-the-current-model[model attribute reassigned]", vc.method(cf, "_theta", a) == T2(a) + 1)
 
     def replay(self, model, clause, case):
         from contracts import battery
@@ -69,6 +77,15 @@ class OneName(Lemma):
         bad = abs(cf._theta(a) - th) > 1e-12 or abs(cf.cds_spread(a, R) - (1 - R) * th) > 1e-12 or abs(cf.survival_probability(a, 1.5) - np.exp(-1.5 * th)) > 1e-12
         s = cf.implied_cds_spread(pv=0.0, level_a=a, recovery_rate=R, maturity=T)
         bad = bad or abs(s - cf.cds_spread(a, R)) > 1e-8
+        if "after-the-model-changed" in clause:
+            before = float(cf._theta(a))
+            m.truncate_levy_measure((-0.15, 0.2))
+            after, want = float(cf._theta(a)), float(m.levy_triplet.nu.integrate(-np.inf, a))
+            m2 = battery.models(("merton",))["merton"]
+            cf.model = m2
+            other, want2 = float(cf._theta(a)), float(m2.levy_triplet.nu.integrate(-np.inf, a))
+            return (abs(after - want) > 1e-12 or abs(other - want2) > 1e-12,
+                    {"theta_before": before, "theta_after_truncation_to_(-0.15,0.2)": after, "mass_of_the_truncated_measure": want, "theta_after_model_reassigned": other, "mass_of_the_new_model": want2})
         return (bool(bad), {"theta": float(cf._theta(a)), "mass_below_a": float(th), "implied_spread_at_pv0": float(s), "par_spread": float(cf.cds_spread(a, R))})
 
 
